@@ -5,6 +5,7 @@
 import CG.Tx
 import CG.Spec
 import CG.Proofs.Compose
+import CG.Proofs.Strip
 namespace CG.C06
 open Circuit
 
@@ -117,6 +118,93 @@ theorem fill_blackbox_sem (P sub P' : Circuit) (inst : Name) (bb : BBox) (ord : 
     (∀ p ∈ bb.ins, ∀ u, P.fanin (inst ++ "." ++ p) = [u] → (∀ q ∈ bb.outs ++ bb.ins, u ≠ inst ++ "." ++ q) →
         v (pref inst p) = v u) :=
   (fill_facts hord hP hsub hfull hbb h).sem hP hsub hin v hv
+
+/-! ### strip_blackboxes -/
+
+/-- a blackbox pin node that `strip_blackboxes` deletes (its pin name is among `ignore_pins`) / keeps and exposes -/
+def isPin (c : Circuit) (n : Name) : Bool := c.ty? n == some "bb_input" || c.ty? n == some "bb_output"
+def droppedPin (c : Circuit) (ignore : List Name) (n : Name) : Bool := isPin c n && ignore.contains (Tx.lastDot n)
+def keptPin (c : Circuit) (ignore : List Name) (n : Name) : Bool := isPin c n && !ignore.contains (Tx.lastDot n)
+/-- the name a node of `c` has in the stripped circuit: `inst_pin` for an exposed pin, unchanged otherwise -/
+def stripName (c : Circuit) (ignore : List Name) (n : Name) : Name :=
+  if keptPin c ignore n then Tx.replaceDots n else n
+
+/-- glue: the vocabulary above is the one the helper lemmas of `CG/Proofs/Strip*.lean` are stated in -/
+theorem isPin_eq : @isPin = @Strip.isPin := rfl
+theorem droppedPin_eq : @droppedPin = @Strip.dropped := rfl
+theorem keptPin_eq : @keptPin = @Strip.kept := rfl
+theorem stripName_eq : @stripName = @Strip.sname := rfl
+
+/-- **C06 (strip_blackboxes).** a successful call returns a blackbox-free circuit in which every kept input pin
+    `inst.pin` is an output buffer `inst_pin` driven as the pin was, every kept output pin is a primary input `inst_pin`
+    driving what the pin drove, ignored pins are gone, every other node keeps its type and output mark, the wiring
+    between surviving nodes is unchanged, and no surviving node changes its function: consistent valuations of the two
+    circuits correspond on all surviving nodes — for every ignore list and every set-iteration order -/
+theorem strip_blackboxes_spec (c c' : Circuit) (ignore : List Name) (ord : Ord) (hord : OrdOK ord) (hc : LintClean c)
+    (h : Tx.stripBlackboxes c ignore ord = .ok c') :
+    c'.bbs = [] ∧ c'.name = c.name ∧
+    (∀ m, c'.has m = true ↔ ∃ n, c.has n = true ∧ droppedPin c ignore n = false ∧ m = stripName c ignore n) ∧
+    (∀ n₁ n₂, c.has n₁ = true → c.has n₂ = true → droppedPin c ignore n₁ = false → droppedPin c ignore n₂ = false →
+        stripName c ignore n₁ = stripName c ignore n₂ → n₁ = n₂) ∧
+    (∀ n, c.has n = true → isPin c n = false → c'.attr? n = c.attr? n) ∧
+    (∀ n, c.ty? n = some "bb_input" → keptPin c ignore n = true →
+        c'.ty? (Tx.replaceDots n) = some "buf" ∧ c'.isOut (Tx.replaceDots n) = true) ∧
+    (∀ n, c.ty? n = some "bb_output" → keptPin c ignore n = true → c'.ty? (Tx.replaceDots n) = some "input") ∧
+    (∀ a b, c.has a = true → c.has b = true → droppedPin c ignore a = false → droppedPin c ignore b = false →
+        ((stripName c ignore a, stripName c ignore b) ∈ c'.edges ↔ (a, b) ∈ c.edges)) ∧
+    (∀ v', Consistent c' v' → ∃ v, Consistent c v ∧
+        ∀ n, c.has n = true → droppedPin c ignore n = false → v n = v' (stripName c ignore n)) ∧
+    (∀ v, Consistent c v → ∃ v', Consistent c' v' ∧
+        ∀ n, c.has n = true → droppedPin c ignore n = false → v' (stripName c ignore n) = v n) := by
+  obtain ⟨hb, S⟩ := Strip.strip_ok (ig := ignore) hord hc.toWF h
+  refine ⟨hb, S.name, S.has, S.inj, S.attrKeep, ?_, ?_, ?_, ?_, ?_⟩
+  · intro n hty hk
+    have ha := S.attrIn n hty hk
+    exact ⟨by simp [Circuit.ty?, ha], by simp [Circuit.isOut, ha]⟩
+  · intro n hty hk
+    have hh : (c.attr? n).isSome = true := by rw [← has_eq_isSome]; exact has_of_ty? hty
+    cases hca : c.attr? n with
+    | none => rw [hca] at hh; cases hh
+    | some a =>
+      have hta : a.ty = some "bb_output" := by simpa [Circuit.ty?, hca] using hty
+      have ha := S.attrOut n a hca hta hk
+      simp [Circuit.ty?, ha]
+  · intro a b ha hb' da db
+    rw [S.edges]
+    constructor
+    · rintro ⟨a', b', hab, da', db', e⟩
+      injection e with e1 e2
+      have h1 := S.inj a a' ha (hc.closed _ hab).1 da da' e1
+      have h2 := S.inj b b' hb' (hc.closed _ hab).2 db db' e2
+      rw [h1, h2]; exact hab
+    · intro hab
+      exact ⟨a, b, hab, da, db, rfl⟩
+  · intro v' hv'
+    exact ⟨Strip.pullVal c ignore v', Strip.pull_consistent hc S v' hv', fun n _ hd => Strip.pullVal_surv v' hd⟩
+  · intro v hv
+    exact ⟨Strip.pushVal c ignore v, Strip.push_consistent hc S v hv, fun n h1 hd => Strip.pushVal_surv S v h1 hd⟩
+
+/-- colliding exposed names are rejected, never merged (K32): an exposed name that is already a node, or two pins with
+    the same exposed name -/
+theorem strip_blackboxes_rejects_overlap (c : Circuit) (ignore : List Name) (ord : Ord) (hord : OrdOK ord)
+    (hty : ∀ p ∈ c.nodes, p.2.ty.isSome = true) (hnd : c.nodeNames.Nodup)
+    (hov : (∃ n, c.has n = true ∧ keptPin c ignore n = true ∧ c.has (Tx.replaceDots n) = true ∧
+              droppedPin c ignore (Tx.replaceDots n) = false) ∨
+           (∃ n₁ n₂, n₁ ≠ n₂ ∧ c.has n₁ = true ∧ c.has n₂ = true ∧ keptPin c ignore n₁ = true ∧ keptPin c ignore n₂ = true ∧
+              Tx.replaceDots n₁ = Tx.replaceDots n₂)) :
+    Tx.stripBlackboxes c ignore ord = .error .valueError := by
+  exact Strip.strip_rejects (ig := ignore) hord hty hnd hov
+
+/-- non-vacuity: a flop instance stripped with its clock ignored -/
+def exStrip : Circuit :=
+  { name := "top",
+    nodes := [("a", { ty := some "input", out := some false }), ("k", { ty := some "input", out := some false }),
+              ("u.clk", { ty := some "bb_input", out := some false }), ("u.d", { ty := some "bb_input", out := some false }),
+              ("u.q", { ty := some "bb_output", out := some false }), ("o", { ty := some "buf", out := some true })],
+    edges := [("a", "u.d"), ("k", "u.clk"), ("u.q", "o")],
+    bbs := [("u", { name := "ff", ins := ["clk", "d"], outs := ["q"] })] }
+example : (Tx.stripBlackboxes exStrip ["clk"] id).toOption.map (fun c' => (c'.nodeNames, c'.edges, c'.inputs, c'.outputs)) =
+    some (["a", "k", "o", "u_d", "u_q"], [("a", "u_d"), ("u_q", "o")], ["a", "k", "u_q"], ["o", "u_d"]) := by decide +kernel
 
 /-! non-vacuity: the doc-string example (a mux child spliced with connections) goes through the model -/
 def child : Circuit :=
